@@ -39,7 +39,7 @@ FLOOR["contract_posts_evaluated"] = 200
 
 
 def plan(tier, seed):
-    n = 36 if tier == "quick" else 6400
+    n = 72 if tier == "quick" else 6400
     return [{"kind": "block", "block": b, "n": 12, "seed": seed} for b in range(n)]
 
 
